@@ -90,6 +90,8 @@ static char files[MAXFILE][128];
 static bool fexists[MAXFILE], ftemp[MAXFILE];
 static int nfiles;
 static int bound = 0, cost = 0, policy = 0;
+static char **drv_argv;
+static int drv_argc;
 static bool optlarge, optforeign, optnoprune, quiet;
 static int optreadlink;        /* -R: 0 the link resolves, 1 readlink fails (no /proc), 2 the target fills the buffer */
 static char *optargv0 = "cproc";  /* -A: argv[0] of the driver */
@@ -590,9 +592,16 @@ mkstemp(char *template)
 int
 unlink(const char *path)
 {
-	int k = filefind(path, false);
+	int k = filefind(path, false), i;
 
 	logf_("unlink %s%s\n", path, k >= 0 && fexists[k] ? "" : " (ENOENT)");
+	/* I6: the driver only removes what it or its stages created, never a file named as an input on the command line */
+	if (k < 0 && inworld) {
+		for (i = 1; i < drv_argc; ++i) {
+			if (strcmp(drv_argv[i], path) == 0 && strcmp(drv_argv[i - 1], "-o") != 0 && drv_argv[i][0] != '-')
+				violation("I6: unlink of the input file %s, which the driver did not create", path);
+		}
+	}
 	if (k < 0 || !fexists[k]) {
 		errno = ENOENT;
 		return -1;
@@ -814,8 +823,6 @@ atend(int status, void *arg)
 
 /* ---- explorer ---- */
 
-static char **drv_argv;
-static int drv_argc;
 
 static void
 child(void)
